@@ -35,3 +35,9 @@ From QV Require Import Gen.Hash Gen.Tie_Hash.
 Theorem gen_c16_hash64 : forall key : N, Gen.Hash.qt_hash64 (Z.of_N key) = Some (Z.of_N (hash64 key)).
 Proof. exact tie_hash64. Qed.
 Print Assumptions gen_c16_hash64.
+
+(* the growth rule at the end of qt_hash_put (old count decides; doubling by CAS unless above hard_max_buckets) = the size of Model.bump *)
+Theorem gen_c16_put_grow : forall d : dict, (0 < d_size d)%N -> Z.of_N (d_size d) < 4611686018427387904 ->
+  qt_hash_put_grow (fun _ => Z.of_N (d_count d)) (Z.of_N (d_size d)) (Z.of_N (d_cap d)) = Some (Z.of_N (d_size (bump d))).
+Proof. exact tie_put_grow. Qed.
+Print Assumptions gen_c16_put_grow.
